@@ -148,7 +148,8 @@ func message2Chunks(message []byte, header *base.RtmpHeader, prevHeader *base.Rt
 
 	// 计算chunk数量，最后一个chunk的大小
 	lastChunkSize := chunkSize
-	if len(message)%chunkSize != 0 {
+	// 注意，空message也需要一个只有头部的chunk，否则对端收不到这个message
+	if len(message)%chunkSize != 0 || len(message) == 0 {
 		numOfChunk++
 		lastChunkSize = len(message) % chunkSize
 		maxNeededLen += lastChunkSize + maxHeaderSize
